@@ -96,6 +96,7 @@ PLAN = {
         "selftest": True,
         "packages": ["vnative", "vsim"],
         "engines": [
+            {"name": "n-place", "argv": [VNATIVE, "place", "--property", "C13"]},
             {"name": "n-probe", "argv": [VNATIVE, "probe", "--property", "C13"]},
             {"name": "n-shapes", "argv": [VNATIVE, "shapes", "--property", "C13"]},
             {"name": "s1-arm64", "argv": [VSIM, "arm64", "--property", "C13", "--modes", "fn"]},
